@@ -16,6 +16,8 @@ import sys
 
 ENCODER = "actix-http/src/encoding/encoder.rs"
 DECODER = "actix-http/src/encoding/decoder.rs"
+CONTENT_ENCODING_RS = "actix-http/src/header/shared/content_encoding.rs"
+CE_VARIANTS = {"Identity": "CEIdentity", "Brotli": "CEBrotli", "Deflate": "CEDeflate", "Gzip": "CEGzip", "Zstd": "CEZstd"}
 OPS = {">": "OpGt", ">=": "OpGe", "<": "OpLt", "<=": "OpLe"}
 STATUS = {"CONTINUE": 100, "SWITCHING_PROTOCOLS": 101, "PROCESSING": 102, "OK": 200, "CREATED": 201, "ACCEPTED": 202,
           "NO_CONTENT": 204, "RESET_CONTENT": 205, "PARTIAL_CONTENT": 206, "NOT_MODIFIED": 304}
@@ -113,6 +115,80 @@ def _write_calls(text):
     return len(re.findall(r"\.write_all\(data\)", block)), len(re.findall(r"\.write\(data\)", block))
 
 
+def _body_end_arms(text):
+    """the `None =>` arm of `match result` in Encoder::poll_next: for each of its three returns, whether
+    `*this.eof = true` is executed before it and what is returned"""
+    pn = _block(text, r"impl<B> MessageBody for Encoder<B>")
+    arm = _squash(_block(_block(pn, r"match result\s*\{"), r"None\s*=>\s*\{"))
+    m = re.match(r"^\{ifletSome\(encoder\)=this\.encoder\.take\(\)\{letchunk=encoder\.finish\(\)\.map_err\(EncoderError::Io\)\?;"
+                 r"ifchunk\.is_empty\(\)\{([^{}]*)\}else\{([^{}]*)\}\}else\{([^{}]*)\}\}$", arm)
+    if not m:
+        raise ValueError("the `None =>` arm of Encoder::poll_next has an unexpected shape: %r" % arm[:160])
+    rows = []
+    for name, blk in zip(("EndFinishEmpty", "EndFinishChunk", "EndNoEncoder"), m.groups()):
+        stmts = [x for x in blk.split(";") if x]
+        sets = "*this.eof=true" in stmts
+        rest = [x for x in stmts if x != "*this.eof=true"]
+        if rest == ["returnPoll::Ready(None)"]:
+            ret = "RetEnd"
+        elif rest == ["returnPoll::Ready(Some(Ok(chunk)))"]:
+            ret = "RetChunk"
+        else:
+            raise ValueError("statements of the %s return not understood: %r" % (name, blk))
+        if sets and stmts.index("*this.eof=true") > stmts.index(rest[0]):
+            raise ValueError("`*this.eof = true` after the return in %s" % name)
+        rows.append("(%s, %s, %s)" % (name, "true" if sets else "false", ret))
+    return rows
+
+
+def _lit(s):
+    return "[" + "; ".join(str(b) for b in s.encode("ascii")) + "]"
+
+
+def _from_str(text):
+    """impl FromStr for ContentEncoding: is the input trimmed, and the if / else-if chain in order:
+    (comparison, literal, variant)"""
+    blk = _squash(_block(_block(text, r"impl FromStr for ContentEncoding\s*\{"), r"fn from_str\(enc: &str\)[^{]*\{"))
+    trims = blk.startswith("{letenc=enc.trim();")
+    body = blk[len("{letenc=enc.trim();"):] if trims else blk[1:]
+    rows = []
+    rx = re.compile(r'^(?:else)?if(enc\.eq_ignore_ascii_case\("([^"]*)"\)|enc=="([^"]*)")\{Ok\(ContentEncoding::(\w+)\)\}')
+    while True:
+        m = rx.match(body)
+        if not m:
+            break
+        lit = m.group(2) if m.group(2) is not None else m.group(3)
+        cmp_ = "CmpIgnoreAsciiCase" if m.group(2) is not None else "CmpExact"
+        if m.group(4) not in CE_VARIANTS:
+            raise ValueError("unknown ContentEncoding variant %s in from_str" % m.group(4))
+        rows.append("(%s, %s, %s)" % (cmp_, _lit(lit), CE_VARIANTS[m.group(4)]))
+        body = body[m.end():]
+    if body != "else{Err(ContentEncodingParseError)}}":
+        raise ValueError("tail of ContentEncoding::from_str not understood: %r" % body[:160])
+    return trims, rows
+
+
+def _from_headers(text):
+    blk = _squash(_block(text, r"pub fn from_headers\(stream: S, headers: &HeaderMap\)[^{]*\{"))
+    m = re.match(r"^\{letencoding=headers\.get\(&CONTENT_ENCODING\)\.and_then\(\|val\|val\.to_str\(\)\.ok\(\)\)"
+                 r"\.and_then\(\|x\|x\.parse\(\)\.ok\(\)\)\.unwrap_or\(ContentEncoding::(\w+)\);Self::new\(stream,encoding\)\}$", blk)
+    if not m or m.group(1) not in CE_VARIANTS:
+        raise ValueError("Decoder::from_headers has an unexpected shape: %r" % blk[:200])
+    return CE_VARIANTS[m.group(1)]
+
+
+def _decoder_new_arms(text):
+    blk = _block(_block(text, r"pub fn new\(stream: S, encoding: ContentEncoding\)[^{]*\{"), r"let decoder = match encoding\s*\{")
+    rows = []
+    for m in re.finditer(r"ContentEncoding::(\w+)\s*=>\s*Some\(ContentDecoder::(\w+)\(", blk):
+        if m.group(1) not in CE_VARIANTS or m.group(2) not in CE_VARIANTS:
+            raise ValueError("Decoder::new arm not understood: %s => %s" % (m.group(1), m.group(2)))
+        rows.append("(%s, %s)" % (CE_VARIANTS[m.group(1)], CE_VARIANTS[m.group(2)]))
+    if not re.search(r"_\s*=>\s*None", blk):
+        raise ValueError("Decoder::new: the `_ => None` arm is gone")
+    return rows
+
+
 def _write(target, text):
     old = open(target).read() if os.path.exists(target) else None
     if old != text:
@@ -133,10 +209,14 @@ def generate(repo, gen_dir):
            "Inductive empty_result := RNone | REmpty.",
            "Inductive in_place_op := OpGt | OpGe | OpLt | OpLe.",
            "Inductive head_stmt := UInsertContentEncoding | UAppendVaryAcceptEncoding | URemoveContentLength",
-           "                     | UNoChunking (v : bool).", ""]
+           "                     | UNoChunking (v : bool).",
+           "Inductive end_arm := EndFinishEmpty | EndFinishChunk | EndNoEncoder.",
+           "Inductive end_ret := RetEnd | RetChunk.",
+           "Inductive ce_variant := CEIdentity | CEBrotli | CEDeflate | CEGzip | CEZstd.",
+           "Inductive str_cmp := CmpIgnoreAsciiCase | CmpExact.", ""]
     missing = []
     texts = {}
-    for rel in (ENCODER, DECODER):
+    for rel in (ENCODER, DECODER, CONTENT_ENCODING_RS):
         try:
             texts[rel] = _strip_comments(open(os.path.join(repo, rel), encoding="utf-8").read())
         except OSError as e:
@@ -186,6 +266,37 @@ def generate(repo, gen_dir):
                 "Definition ENCODER_WRITE_PARTIAL_ARMS : nat := %d." % wc[1], ""]
         print("TABLE ENCODER_WRITE_CALLS write_all=%d write=%d" % wc)
         print("CONST ENCODER_WRITE_CALLS %d" % wc[0])
+    rows = attempt("ENC_BODY_END_ARMS", ENCODER, _body_end_arms)
+    if rows is not None:
+        out += ["(* Encoder::poll_next, the arm that runs when the wrapped body answers None: for each return,",
+                "   whether `*this.eof = true` precedes it, and what is returned *)",
+                "Definition ENC_BODY_END_ARMS : list (end_arm * bool * end_ret) :=",
+                "  [" + "; ".join(rows) + "].", ""]
+        print("TABLE ENC_BODY_END_ARMS %s" % ",".join(_squash(r) for r in rows))
+        print("CONST ENC_BODY_END_ARMS %d" % len(rows))
+    fs = attempt("CE_FROM_STR_ARMS", CONTENT_ENCODING_RS, _from_str)
+    if fs is not None:
+        out += ["(* impl FromStr for ContentEncoding: `let enc = enc.trim();` present, and the if / else-if chain",
+                "   in source order: comparison, literal (ASCII codes), variant; the tail is Err *)",
+                "Definition CE_FROM_STR_TRIMS : bool := %s." % ("true" if fs[0] else "false"),
+                "Definition CE_FROM_STR_ARMS : list (str_cmp * list N * ce_variant) :=",
+                "  [" + ";\n   ".join(fs[1]) + "].", ""]
+        print("TABLE CE_FROM_STR_ARMS trim=%s %s" % (fs[0], ",".join(_squash(r) for r in fs[1])))
+        print("CONST CE_FROM_STR_ARMS %d" % len(fs[1]))
+    fb = attempt("DEC_FROM_HEADERS_FALLBACK", DECODER, _from_headers)
+    if fb is not None:
+        out += ["(* Decoder::from_headers: headers.get(&CONTENT_ENCODING) (first value) .to_str().ok() .parse().ok()",
+                "   .unwrap_or(ContentEncoding::<this>) *)",
+                "Definition DEC_FROM_HEADERS_FALLBACK : ce_variant := %s." % fb, ""]
+        print("TABLE DEC_FROM_HEADERS_FALLBACK %s" % fb)
+        print("CONST DEC_FROM_HEADERS_FALLBACK 1")
+    rows = attempt("DECODER_NEW_ARMS", DECODER, _decoder_new_arms)
+    if rows is not None:
+        out += ["(* Decoder::new: ContentEncoding::<a> => Some(ContentDecoder::<b>(..)); every other variant => None *)",
+                "Definition DECODER_NEW_ARMS : list (ce_variant * ce_variant) :=",
+                "  [" + "; ".join(rows) + "].", ""]
+        print("TABLE DECODER_NEW_ARMS %s" % ",".join(_squash(r) for r in rows))
+        print("CONST DECODER_NEW_ARMS %d" % len(rows))
     for name, rel, why in missing:
         out.append("(* MISSING %s from %s: %s *)" % (name, rel, why.replace("*)", "* )")))
         print("MISSING %s %s %s" % (name, rel, why.replace("\n", " ")[:200]))
